@@ -73,6 +73,7 @@ func checkC15(r *Run) propMeta {
 	// the component graph is built with the CSR builder: its offsets must be complete (shared with C14-R6)
 	checkPrefixArraysWrittenEveryIteration(r, cp, "C15-R5-component-graph-offsets")
 	checkPartialFlagMonotone(r, r.MustPkg("algo"))
+	checkFoundFlagOverwritten(r, "C15-R8-found-flag-overwritten", r.MustPkg("algo"), "a reachable pair is answered as unreachable, depending on the order in which the neighbours are stored")
 	checkNodeIDsNotNarrowed(r, "C15-R7-node-ids-not-narrowed", r.MustPkg("algo"), cp)
 	r.Floor("C15-R1-cached-set-readonly", 8)
 
@@ -96,68 +97,37 @@ func checkC15(r *Run) propMeta {
 		} else {
 			name = "ReachabilityCache.cachedComponentReach"
 		}
-		// the switch over the direction, in the function itself or in a selector helper it calls
-		var sw *ast.SwitchStmt
-		for _, body := range bodyWithHelpers(p, fd) {
-			ast.Inspect(body, func(n ast.Node) bool {
-				if s, ok := n.(*ast.SwitchStmt); ok && sw == nil {
-					sw = s
-				}
-				return true
-			})
-		}
-		if sw == nil {
-			r.Undecide("C15-R4: %s has no switch over the direction", name)
+		// which cache side the function (with the selector helper it may call) touches, direction by direction: the
+		// statements are walked with every test of the direction parameter against a constant decided for that direction
+		bodies := bodyWithHelpers(p, fd)
+		dirConsts := directionConstants(info, bodies)
+		if len(dirConsts) < 2 {
+			r.Undecide("C15-R4: %s does not tell directions apart (no comparison of a graph.Direction with its constants)", name)
 			continue
 		}
-		seen := map[string]bool{}
-		for _, c := range sw.Body.List {
-			cc := c.(*ast.CaseClause)
-			for _, e := range cc.List {
-				dir := ""
-				var id *ast.Ident
-				switch x := ast.Unparen(e).(type) {
-				case *ast.Ident:
-					id = x
-				case *ast.SelectorExpr:
-					id = x.Sel
-				}
-				if id != nil {
-					if cst, ok := info.Uses[id].(*types.Const); ok && strings.HasPrefix(cst.Name(), "Direction") {
-						dir = strings.TrimPrefix(cst.Name(), "Direction")
-					}
-				}
-				if dir == "" {
-					continue
-				}
-				seen[dir] = true
-				sides := map[string]bool{}
-				for _, st := range cc.Body {
-					ast.Inspect(st, func(n ast.Node) bool {
-						if sel, ok := n.(*ast.SelectorExpr); ok {
-							if s := info.Selections[sel]; s != nil && s.Kind() == types.FieldVal {
-								if sd := sideOfName(sel.Sel.Name); sd != "" {
-									sides[sd] = true
-								}
-							}
-						}
-						return true
-					})
-				}
-				want := map[string]string{"Outbound": "out", "Inbound": "in"}[dir]
-				construct := name + ":" + dir
+		for _, dir := range sortedKeys(dirConsts) {
+			sides := map[string]bool{}
+			for _, body := range bodies {
+				sidesUnderDirection(info, body, dirConsts[dir], sides)
+			}
+			short := strings.TrimPrefix(dir, "Direction")
+			construct := name + ":" + short
+			want := map[string]string{"Outbound": "out", "Inbound": "in"}[short]
+			switch {
+			case want != "":
 				other := map[string]string{"out": "in", "in": "out"}[want]
-				if want != "" && sides[want] && !sides[other] {
-					r.Pass("C15-R4-direction-role", construct, cc.Pos(), "Direction%s uses the %sbound cache only", dir, want)
+				if sides[want] && !sides[other] {
+					r.Pass("C15-R4-direction-role", construct, fd.Pos(), "%s uses the %sbound cache only", dir, want)
 				} else {
-					r.Fail("C15-R4-direction-role", construct, cc.Pos(), "the Direction%s case touches cache sides %v: a reach set computed in one direction is stored under, or served for, the other direction", dir, sortedKeys(sides))
+					r.Fail("C15-R4-direction-role", construct, fd.Pos(), "for %s the function touches cache sides %v: a reach set computed in one direction is stored under, or served for, the other direction", dir, sortedKeys(sides))
+				}
+			default:
+				if len(sides) == 0 {
+					r.Pass("C15-R4-direction-role", construct, fd.Pos(), "%s touches neither cache", dir)
+				} else {
+					r.Fail("C15-R4-direction-role", construct, fd.Pos(), "for %s — which is neither inbound nor outbound — the function touches the %v cache: a reach set computed over both directions is stored under, or an %sbound answer served for, a component key that the one-directional queries share", dir, sortedKeys(sides), sortedKeys(sides)[0])
 				}
 			}
-		}
-		if !seen["Inbound"] || !seen["Outbound"] {
-			r.Fail("C15-R4-direction-role", name+":coverage", sw.Pos(), "the direction switch handles %v; both Inbound and Outbound are required (a direction handled by the getter but not the setter is recomputed on every query, the converse serves nothing)", sortedKeys(seen))
-		} else {
-			r.Pass("C15-R4-direction-role", name+":coverage", sw.Pos(), "handles Inbound and Outbound")
 		}
 	}
 	r.Floor("C15-R4-direction-role", 6)
@@ -589,4 +559,252 @@ func pathIsRootOnly(pth structuredPath, isRootTest func(cond ast.Expr, op token.
 		}
 	}
 	return false
+}
+
+// directionConstants: the constants of a type named Direction that the bodies compare a value with (by == / != or as
+// switch cases), plus the other constants of that type declared in the same package.
+func directionConstants(info *types.Info, bodies []ast.Node) map[string]*types.Const {
+	out := map[string]*types.Const{}
+	var dirType types.Type
+	note := func(e ast.Expr) {
+		var id *ast.Ident
+		switch x := ast.Unparen(e).(type) {
+		case *ast.Ident:
+			id = x
+		case *ast.SelectorExpr:
+			id = x.Sel
+		}
+		if id == nil {
+			return
+		}
+		if c, ok := info.Uses[id].(*types.Const); ok && namedName(c.Type()) == "Direction" {
+			out[c.Name()] = c
+			dirType = c.Type()
+		}
+	}
+	for _, b := range bodies {
+		ast.Inspect(b, func(n ast.Node) bool {
+			switch t := n.(type) {
+			case *ast.BinaryExpr:
+				if t.Op == token.EQL || t.Op == token.NEQ {
+					note(t.X)
+					note(t.Y)
+				}
+			case *ast.CaseClause:
+				for _, e := range t.List {
+					note(e)
+				}
+			}
+			return true
+		})
+	}
+	if dirType != nil {
+		if nt := namedOf(dirType); nt != nil && nt.Obj().Pkg() != nil {
+			sc := nt.Obj().Pkg().Scope()
+			for _, nm := range sc.Names() {
+				if c, ok := sc.Lookup(nm).(*types.Const); ok && types.Identical(c.Type(), dirType) && strings.HasPrefix(c.Name(), "Direction") {
+					out[c.Name()] = c
+				}
+			}
+		}
+	}
+	return out
+}
+
+// sidesUnderDirection collects the cache sides (fields named for inbound / outbound) mentioned by the statements of
+// body that can run when the direction value equals dir.
+func sidesUnderDirection(info *types.Info, body ast.Node, dir *types.Const, sides map[string]bool) {
+	isDirValue := func(e ast.Expr) bool {
+		t := info.TypeOf(e)
+		if t == nil || namedName(t) != "Direction" {
+			return false
+		}
+		tv, has := info.Types[e]
+		return has && tv.Value == nil
+	}
+	constOf := func(e ast.Expr) *types.Const {
+		var id *ast.Ident
+		switch x := ast.Unparen(e).(type) {
+		case *ast.Ident:
+			id = x
+		case *ast.SelectorExpr:
+			id = x.Sel
+		}
+		if id == nil {
+			return nil
+		}
+		c, _ := info.Uses[id].(*types.Const)
+		return c
+	}
+	// truth of a condition under dir: 1 true, 0 false, -1 unknown
+	var truth func(e ast.Expr) int
+	truth = func(e ast.Expr) int {
+		e = ast.Unparen(e)
+		switch t := e.(type) {
+		case *ast.UnaryExpr:
+			if t.Op == token.NOT {
+				if v := truth(t.X); v >= 0 {
+					return 1 - v
+				}
+			}
+		case *ast.BinaryExpr:
+			switch t.Op {
+			case token.LAND:
+				a, b := truth(t.X), truth(t.Y)
+				if a == 0 || b == 0 {
+					return 0
+				}
+				if a == 1 && b == 1 {
+					return 1
+				}
+			case token.LOR:
+				a, b := truth(t.X), truth(t.Y)
+				if a == 1 || b == 1 {
+					return 1
+				}
+				if a == 0 && b == 0 {
+					return 0
+				}
+			case token.EQL, token.NEQ:
+				var c *types.Const
+				switch {
+				case isDirValue(t.X):
+					c = constOf(t.Y)
+				case isDirValue(t.Y):
+					c = constOf(t.X)
+				}
+				if c != nil && namedName(c.Type()) == "Direction" {
+					same := c.Val().ExactString() == dir.Val().ExactString()
+					if (t.Op == token.EQL) == same {
+						return 1
+					}
+					return 0
+				}
+			}
+		}
+		return -1
+	}
+	note := func(n ast.Node) {
+		ast.Inspect(n, func(m ast.Node) bool {
+			if sel, ok := m.(*ast.SelectorExpr); ok {
+				if s := info.Selections[sel]; s != nil && s.Kind() == types.FieldVal {
+					if sd := sideOfName(sel.Sel.Name); sd != "" {
+						sides[sd] = true
+					}
+				}
+			}
+			return true
+		})
+	}
+	var walk func(list []ast.Stmt) bool // returns false when the list always leaves (return) on this direction
+	walk = func(list []ast.Stmt) bool {
+		for _, st := range list {
+			switch t := st.(type) {
+			case *ast.BlockStmt:
+				if !walk(t.List) {
+					return false
+				}
+			case *ast.IfStmt:
+				if t.Init != nil {
+					note(t.Init)
+				}
+				note(t.Cond)
+				v := truth(t.Cond)
+				thenFalls, elseFalls := true, true
+				if v != 0 {
+					thenFalls = walk(t.Body.List)
+				}
+				if v != 1 {
+					switch e := t.Else.(type) {
+					case *ast.BlockStmt:
+						elseFalls = walk(e.List)
+					case *ast.IfStmt:
+						elseFalls = walk([]ast.Stmt{e})
+					}
+				}
+				switch {
+				case v == 1 && !thenFalls, v == 0 && !elseFalls && t.Else != nil, v < 0 && !thenFalls && !elseFalls && t.Else != nil:
+					return false
+				}
+			case *ast.SwitchStmt:
+				if t.Init != nil {
+					note(t.Init)
+				}
+				if t.Tag != nil && isDirValue(t.Tag) {
+					var chosen *ast.CaseClause
+					var deflt *ast.CaseClause
+					for _, c := range t.Body.List {
+						cc := c.(*ast.CaseClause)
+						if cc.List == nil {
+							deflt = cc
+						}
+						for _, e := range cc.List {
+							if c := constOf(e); c != nil && c.Val().ExactString() == dir.Val().ExactString() {
+								chosen = cc
+							}
+						}
+					}
+					if chosen == nil {
+						chosen = deflt
+					}
+					if chosen != nil {
+						if !walk(chosen.Body) {
+							return false
+						}
+					}
+					continue
+				}
+				if t.Tag == nil {
+					// tagless: cases in order
+					decided := false
+					for _, c := range t.Body.List {
+						cc := c.(*ast.CaseClause)
+						if cc.List == nil {
+							continue
+						}
+						v := 0
+						for _, e := range cc.List {
+							note(e)
+							switch truth(e) {
+							case 1:
+								v = 1
+							case -1:
+								if v == 0 {
+									v = -1
+								}
+							}
+						}
+						if v != 0 {
+							walk(cc.Body)
+						}
+						if v == 1 {
+							decided = true
+							break
+						}
+					}
+					if !decided {
+						for _, c := range t.Body.List {
+							if cc := c.(*ast.CaseClause); cc.List == nil {
+								walk(cc.Body)
+							}
+						}
+					}
+					continue
+				}
+				note(t)
+			case *ast.ReturnStmt:
+				note(t)
+				return false
+			default:
+				note(st)
+			}
+		}
+		return true
+	}
+	switch b := body.(type) {
+	case *ast.BlockStmt:
+		walk(b.List)
+	default:
+		note(body)
+	}
 }
